@@ -66,7 +66,7 @@ def describe(c):
 
 
 def run(ctx):
-    n = 144 if ctx.quick else 1500
+    n = 144 if ctx.quick else 700
     d = ctx.harness("fsm", args=["-n", n] + ARGS)
     if d is None:
         return
